@@ -13,6 +13,7 @@
 import PsutilModel.Proofs.C03Front
 import PsutilModel.Proofs.C03Gone
 import PsutilModel.Proofs.C03Deny
+import PsutilModel.Proofs.C03Walk
 import PsutilModel.Model.C03Gen
 namespace Psutil.C03
 open Spec
@@ -268,26 +269,126 @@ theorem C03_children_fixed_witness :
     (Fe.children (goodCfg true) w0.obj ⟨w0, alwaysAlive, denyAt 3 .EACCES⟩ {}).1 = .ok (.procs []) := by
   decide
 
+/-! ## the walks over other processes: children(recursive=True), parents(), connections() -/
+
+/-- children(recursive=True): for every admissible plan, any process tree (any number of listed PIDs, any
+    depth, cycles included) — a value or a psutil error for the object's pid. Each `Process(child)` /
+    `child.create_time()` is a fault point; the per-child deny accounting is the one of children() -/
+theorem C03_safe_children_recursive (o : Obj) : MethodOK o "children_recursive" := by
+  unfold MethodOK; rw [cfg_good]
+  exact ⟨_, rfl, safe_of_tri (childrenRecFuel_safe _ o none)⟩
+
+/-- … and the bound the model puts on the `while stack` loop is immaterial: the same holds for every fuel -/
+theorem C03_children_recursive_any_fuel (o : Obj) (fuel : Nat) :
+    Safe o.pid (Fe.childrenRecFuel cfg o (some fuel)) := by
+  rw [cfg_good]; exact safe_of_tri (childrenRecFuel_safe _ o (some fuel))
+
+/-- connections(): the deprecated alias (warns, then calls net_connections()) -/
+theorem C03_safe_connections (o : Obj) : MethodOK o "connections" := by
+  obtain ⟨m, hm, hs⟩ := C03_safe_net_connections o
+  exact ⟨m, hm, hs⟩
+
+/-- the weaker guarantee: a value or NoSuchProcess / ZombieProcess / AccessDenied carrying SOME pid — still
+    never a bare OSError, never a parsing error -/
+def SafeAny {α : Type} (m : M α) : Prop := ∀ c s, Adm c → CacheInv s.cache → OKany (m c s).1
+
+def MethodAny (o : Obj) (nm : String) : Prop := ∃ m, Fe.method cfg o nm = some m ∧ SafeAny m
+
+theorem safeAny_of_tri {α : Type} {m : M α} {Q : α → Prop} (h : Tri PsAny m Q) : SafeAny m := by
+  intro c s ha hi
+  have := h c s ha hi
+  rcases hr : m c s with ⟨res, s'⟩
+  rw [hr] at this
+  cases res with
+  | ok a => trivial
+  | error e =>
+    obtain ⟨q, h | h | h⟩ := this.1 <;> subst h <;> simp [OKany]
+
+/-- the full-strength statement for parents() — FALSE of the current source, see `C03_parents_counterexample` -/
+def C03_safe_parents_Full : Prop := ∀ o : Obj, MethodOK o "parents"
+
+/-- PIDs 50 ← 101 ← 105; the object is 105 -/
+def w1 : World :=
+  { target := 105
+    procs := [⟨50, 0, 10, false, false, [(50, false)], [], false⟩,
+              ⟨101, 50, 50, false, false, [(101, false)], [], false⟩,
+              ⟨105, 101, 100, false, false, [(105, false)], [], false⟩] }
+
+theorem adm_deny (w : World) (hw : ∃ i ∈ w.procs, i.pid ≠ w.target) (i : Nat) :
+    Adm ⟨w, alwaysAlive, denyAt i .EACCES⟩ := by
+  refine ⟨fun _ _ _ => Nat.le_refl _, ⟨fun j e h => ?_, fun a b e e' h1 h2 => ?_⟩, hw⟩
+  · simp only [denyAt] at h; split at h <;> simp at h; exact Or.inl h.symm
+  · simp only [denyAt] at h1 h2
+    split at h1 <;> split at h2 <;> simp_all
+
+/-- **parents() leaks another process' pid**: ONE refused access while the walk queries the ancestor 101
+    (access 7 = the open of /proc/101/stat inside `Process(101).is_running()`, reached through
+    `proc.parent()` → `ppid()` → `_raise_if_pid_reused()`) makes `Process(105).parents()` raise
+    NoSuchProcess(pid=101) — although 105 is alive and readable, and 101 is alive too. (A refusal at
+    access 9, the read for `ppid()` proper, gives AccessDenied(pid=101).) -/
+theorem C03_parents_counterexample : ¬ C03_safe_parents_Full := by
+  intro h
+  obtain ⟨m, hm, hs⟩ := h w1.obj
+  have hm' : m = Fe.parents cfg w1.obj := by
+    have : Fe.method cfg w1.obj "parents" = some (Fe.parents cfg w1.obj) := rfl
+    rw [this] at hm; injection hm with hm; exact hm.symm
+  subst hm'
+  have hrun : (Fe.parents cfg w1.obj ⟨w1, alwaysAlive, denyAt 7 .EACCES⟩ {}).1 = .error (.nsp 101) := by
+    rw [cfg_good]
+    generalize cfg.hasRollup = b
+    cases b <;> decide +kernel
+  have := hs ⟨w1, alwaysAlive, denyAt 7 .EACCES⟩ {}
+    (adm_deny w1 ⟨⟨50, 0, 10, false, false, [(50, false)], [], false⟩, by simp [w1], by simp [w1]⟩ 7) cacheInv_empty
+  rw [hrun] at this
+  exact absurd this (by decide +kernel)
+
+/-- the second leak: a refusal of the ancestor's own ppid() read → AccessDenied(pid=101) -/
+theorem C03_parents_counterexample_ad :
+    (Fe.parents (goodCfg true) w1.obj ⟨w1, alwaysAlive, denyAt 9 .EACCES⟩ {}).1 = .error (.ad 101) := by decide +kernel
+
+/-- what parents() does guarantee as it is (`_partial`): for every admissible plan, any chain of ancestors,
+    a value or a psutil error (for the object or for an ancestor it was walking through) — never a bare
+    OSError, never a parsing error -/
+theorem C03_safe_parents_partial (o : Obj) : MethodAny o "parents" := by
+  unfold MethodAny; rw [cfg_good]
+  exact ⟨_, rfl, safeAny_of_tri (parentsFuel_any _ o none)⟩
+
+/-- … and with `proc = proc.parent()` wrapped in `try … except (NoSuchProcess, AccessDenied): break` (the
+    walk ends where an ancestor cannot be queried) the full statement holds, for every fuel -/
+theorem C03_safe_parents_repaired (o : Obj) (fuel : Option Nat) :
+    Safe o.pid (Fe.parentsFuel cfg repairedParentsCatch o fuel) := by
+  rw [cfg_good]; exact safe_of_tri (parentsFuel_repaired _ o fuel)
+
+/-- the witness plan on the repaired walk: the chain found so far -/
+example : (Fe.parentsFuel (goodCfg true) repairedParentsCatch w1.obj none
+    ⟨w1, alwaysAlive, denyAt 7 .EACCES⟩ {}).1 = .ok (.procs [101]) := by decide +kernel
+/-- non-vacuity: fault-free walks -/
+example : (Fe.parents (goodCfg true) w1.obj ⟨w1, alwaysAlive, noDeny⟩ {}).1 = .ok (.procs [101, 50]) := by decide +kernel
+example : (Fe.childrenRec (goodCfg true) ⟨50, some 10⟩ ⟨{ w1 with target := 50 }, alwaysAlive, noDeny⟩ {}).1
+    = .ok (.procs [101, 105]) := by decide +kernel
+
 /-! ## assembly over the translator-generated list of public names -/
 
 /-- public names that are not queries about the process (signals, wait, the context manager):
     out of this property's scope (C01, C15, C16) -/
 def notQueries : List String := ["kill", "oneshot", "resume", "send_signal", "suspend", "terminate", "wait"]
-/-- queries NOT covered by a C03 theorem (listed, never silently dropped):
-    `connections` = deprecated alias of net_connections (adds a warning); `parents` = loop over parent() (C05) -/
-def uncovered : List String := ["connections", "parents"]
+/-- queries NOT covered by a C03 theorem (listed, never silently dropped): none left -/
+def uncovered : List String := []
+/-- queries for which only the weaker `MethodAny` holds of the current source (known finding
+    C03-parents-foreign-pid: `C03_parents_counterexample`) -/
+def weakerOnly : List String := ["parents"]
 /-- covered by its own policy theorem (`C03_as_dict_policy`) -/
 def byPolicy : List String := ["as_dict"]
 
 theorem C03_all_methods (o : Obj) (h0 : o.pid ≠ 0) :
     ∀ nm ∈ publicMethods,
-      nm ∈ notQueries ∨ nm ∈ uncovered ∨ nm ∈ byPolicy ∨ MethodOK o nm :=
+      nm ∈ notQueries ∨ (nm ∈ weakerOnly ∧ MethodAny o nm) ∨ nm ∈ byPolicy ∨ MethodOK o nm :=
   show ∀ nm ∈ ["as_dict", "children", "cmdline", "connections", "cpu_affinity", "cpu_num", "cpu_percent", "cpu_times", "create_time", "cwd", "environ", "exe", "gids", "io_counters", "ionice", "is_running", "kill", "memory_full_info", "memory_info", "memory_maps", "memory_percent", "name", "net_connections", "nice", "num_ctx_switches", "num_fds", "num_threads", "oneshot", "open_files", "parent", "parents", "pid", "ppid", "resume", "rlimit", "send_signal", "status", "suspend", "terminal", "terminate", "threads", "uids", "username", "wait"],
-      nm ∈ notQueries ∨ nm ∈ uncovered ∨ nm ∈ byPolicy ∨ MethodOK o nm from
+      nm ∈ notQueries ∨ (nm ∈ weakerOnly ∧ MethodAny o nm) ∨ nm ∈ byPolicy ∨ MethodOK o nm from
   List.forall_mem_cons.2 ⟨Or.inr (Or.inr (Or.inl (by decide))),
     List.forall_mem_cons.2 ⟨Or.inr (Or.inr (Or.inr (C03_safe_children o))),
     List.forall_mem_cons.2 ⟨Or.inr (Or.inr (Or.inr (C03_safe_cmdline o))),
-    List.forall_mem_cons.2 ⟨Or.inr (Or.inl (by decide)),
+    List.forall_mem_cons.2 ⟨Or.inr (Or.inr (Or.inr (C03_safe_connections o))),
     List.forall_mem_cons.2 ⟨Or.inr (Or.inr (Or.inr (C03_safe_cpu_affinity o))),
     List.forall_mem_cons.2 ⟨Or.inr (Or.inr (Or.inr (C03_safe_cpu_num o))),
     List.forall_mem_cons.2 ⟨Or.inr (Or.inr (Or.inr (C03_safe_cpu_percent o))),
@@ -314,7 +415,7 @@ theorem C03_all_methods (o : Obj) (h0 : o.pid ≠ 0) :
     List.forall_mem_cons.2 ⟨Or.inl (by decide),
     List.forall_mem_cons.2 ⟨Or.inr (Or.inr (Or.inr (C03_safe_open_files o))),
     List.forall_mem_cons.2 ⟨Or.inr (Or.inr (Or.inr (C03_safe_parent o))),
-    List.forall_mem_cons.2 ⟨Or.inr (Or.inl (by decide)),
+    List.forall_mem_cons.2 ⟨Or.inr (Or.inl ⟨by decide, C03_safe_parents_partial o⟩),
     List.forall_mem_cons.2 ⟨Or.inr (Or.inr (Or.inr (C03_safe_pid o))),
     List.forall_mem_cons.2 ⟨Or.inr (Or.inr (Or.inr (C03_safe_ppid o))),
     List.forall_mem_cons.2 ⟨Or.inl (by decide),
